@@ -407,3 +407,11 @@ func MapW[K comparable, V any](m map[K]V, site int) map[K]V {
 	}
 	return m
 }
+
+// After is a yield at an interesting point placed between an inner call that
+// received package-level storage by reference and the call that consumes its
+// result: outer(After(inner(g[:0], v), site)).
+func After[T any](v T, site int) T {
+	YieldW(site)
+	return v
+}
